@@ -153,7 +153,7 @@ def run_history(name, hist, nconst=2, cls=claripy.Solver):
     log = []
 
     def run():
-        symclaripy.KNOWN.clear()
+        symclaripy.reset_caches()
         be.fresh = itertools.count()
         log.clear()
         K = [BVV(mk(k, N), N) for k in ks]
